@@ -323,11 +323,30 @@ def rand_tuple(rng, m, full_imm=None):
     return tup, kw
 
 
+ALIAS_DEFS = ['RA%d = %s' % (n, [str(n), 'x%d' % n, operands.ABI[n]][n % 3]) for n in range(32)]
+
+
+def alias_some(rng, line):
+    """replace some xN register spellings of a rendered line by register-alias constants (documented: `W = s0`)"""
+    import re
+
+    def sub(mo):
+        return 'RA%s' % mo.group(1) if rng.random() < 0.5 else mo.group(0)
+    return re.sub(r'\bx(\d+)\b', sub, line)
+
+
 def text_batch(asm, acc, cases, why):
     """cases: [(m, tup, kw, line)] ; assemble as one program, attribute chunks per line, decode"""
     lines = [c[3] for c in cases]
+    nalias = 0
+    if any('RA' in l for l in lines):
+        # the alias definitions go first; chunks are attributed by line, so shift the index
+        nalias = len(ALIAS_DEFS)
+        lines = ALIAS_DEFS + lines
     with monitors.EncoderMonitor(asm) as mon:
         lay = monitors.layout(asm, lines)
+    if nalias and lay.chunks is not None:
+        lay.chunks = lay.chunks[nalias:]
     acc['ctr']['text_batches'] += 1
     if lay.obs.ok and lay.chunks is not None:
         acc['ctr']['layout_via_' + lay.via] += 1
@@ -385,7 +404,10 @@ def text_shard(asm, acc, sh, deadline):
             plan.append((ms[k % len(ms)], None))
     for m, imm in plan:
         tup, kw = rand_tuple(rng, m, imm)
-        batch.append((m, tup, kw, text_line(rng, m, tup, kw)))
+        line = text_line(rng, m, tup, kw)
+        if sh.get('alias') and rng.random() < 0.5:
+            line = alias_some(rng, line)
+        batch.append((m, tup, kw, line))
         if len(batch) >= 500:
             text_batch(asm, acc, batch, 'text')
             batch = []
@@ -415,7 +437,7 @@ def plan(tier, seed):
         for m in BASE:
             shards.append({'kind': 'enc', 'mode': 'quick', 'm': m, 'seed': seed})
         for i in range(16):
-            shards.append({'kind': 'text', 'ms': BASE, 'lines': 3200, 'seed': seed, 'idx': i})
+            shards.append({'kind': 'text', 'ms': BASE, 'lines': 3200, 'seed': seed, 'idx': i, 'alias': i % 4 == 3})
         shards.sort(key=lambda s: 0 if (s['kind'] == 'enc' and fmt_class(s['m']) in 'UJ') else 1)
         return {'shards': shards, 'budget_s': 120, 'exhaustive': False}
     for m in BASE:
@@ -440,7 +462,7 @@ def plan(tier, seed):
             for i in range(16):
                 shards.append({'kind': 'text', 'ms': [m], 'lines': 0, 'full_imm_of': m, 'seed': seed, 'idx': i})
     for i in range(32):
-        shards.append({'kind': 'text', 'ms': BASE, 'lines': 20000, 'seed': seed, 'idx': 100 + i})
+        shards.append({'kind': 'text', 'ms': BASE, 'lines': 20000, 'seed': seed, 'idx': 100 + i, 'alias': i % 4 == 3})
     # biggest first
     shards.sort(key=lambda s: -(1 << 20 if s['kind'] == 'enc' and fmt_class(s['m']) in 'UJ' else 1))
     return {'shards': shards, 'budget_s': 1500, 'exhaustive': True}
